@@ -308,7 +308,8 @@ def build_driver(pkg, name=None, race=False, tags="verif", timeout=1500):
     if race:
         name += ".race"
     if os.environ.get("VERIF_REPO"):
-        name += ".alt"   # builds from an alternative tree never overwrite the binaries of /repo runs
+        # builds from an alternative tree never overwrite the binaries of /repo runs (nor those of another tree)
+        name += ".alt" + hashlib.sha1(os.environ["VERIF_REPO"].encode()).hexdigest()[:8]
     out = os.path.join(BIN, "drv", name + ".test")
     os.makedirs(os.path.dirname(out), exist_ok=True)
     ov = overlay_json()
